@@ -340,6 +340,27 @@ class WorldImpl:
         if k == "remove":
             self.remove(int(w[1]))
             return self.ok()
+        if k == "register":
+            # the program calls model.register_agent(agent) itself (Agent.__init__ already did, unless it was removed since)
+            o = self.deref(int(w[1]))
+            if o is not None:
+                self.trace.append(("register", int(w[1])))
+                o.model.register_agent(o)
+            del o
+            return self.ok()
+        if k == "deregister":
+            o = self.deref(int(w[1]))
+            if o is None:
+                return self.ok()
+            self.trace.append(("remove", int(w[1])))  # (before the call: the death callback, if any, must come after it)
+            try:
+                o.model.deregister_agent(o)
+            except KeyError:
+                self.trace.append(("rejected", int(w[1])))
+                del o
+                return "err Key"
+            del o
+            return self.ok()
         if k == "removeall":
             self.trace.append(("removeall", int(w[1])))
             self.models[int(w[1])].remove_all_agents()
@@ -572,11 +593,11 @@ def gen_world(R, flavor="c04", size=None):
             k = R.random()
             na = len(impl.wr)
             if flavor == "c02":
-                wts = [("create", .30), ("remove", .22), ("removeall", .04), ("unhold", .04), ("reorder", .10),
-                       ("mkset", .03), ("script", .12), ("act", .15)]
+                wts = [("create", .26), ("remove", .22), ("removeall", .04), ("unhold", .04), ("reorder", .10),
+                       ("mkset", .03), ("script", .12), ("direct", .04), ("act", .15)]
             else:
                 wts = [("create", .12), ("remove", .06), ("removeall", .01), ("unhold", .05), ("reorder", .06),
-                       ("mkset", .08), ("script", .27), ("act", .35)]
+                       ("mkset", .08), ("script", .25), ("direct", .02), ("act", .35)]
             acc, op = 0.0, wts[-1][0]
             for name, p in wts:
                 acc += p
@@ -590,6 +611,13 @@ def gen_world(R, flavor="c04", size=None):
                 emit(f"remove {a}")
                 if R.random() < 0.25:
                     emit(f"remove {a}")  # idempotence
+            elif op == "direct":
+                # register_agent / deregister_agent called by the program itself (also twice in a row)
+                a = an_agent()
+                kind = "register" if R.random() < 0.5 else "deregister"
+                emit(f"{kind} {a}")
+                if R.random() < 0.3:
+                    emit(f"{kind} {a}")
             elif op == "removeall":
                 emit(f"removeall {R.randrange(nm)}" if R.random() < 0.7 else f"setagents {R.randrange(nm)}")
             elif op == "unhold":
@@ -716,6 +744,8 @@ def oracle_c02(sc, obs):
                 bad.append(f"createn: `{line}` handed the constructors {got}, expected {want}")
             if len([e for e in events if e[0] == "create"]) != n:
                 bad.append(f"createn: `{line}` created {len([e for e in events if e[0] == 'create'])} agents")
+        # (register / deregister called directly: the property's clauses are the exactness clauses below; whether an
+        # unregistered agent makes deregister_agent raise KeyError is the model's business, i.e. the correspondence check's)
         if w[0] == "setagents" and not o.startswith("err Attr"):
             bad.append(f"setagents: assigning model.agents was not rejected (`{o.split(' || ')[0]}`)")
         for ev in events:
@@ -730,6 +760,17 @@ def oracle_c02(sc, obs):
                 if ty not in seen_ty[m]:
                     seen_ty[m].append(ty)
                 touched.add(m)
+            elif ev[0] == "register":
+                # register_agent called directly: nothing changes for a registered agent (the exactness clauses below then
+                # check that no view got a duplicate or a new order); an agent that had been removed is registered again
+                aid = ev[1]
+                m, ty, _ = created[aid]
+                touched.add(m)
+                if aid not in expect[m]:
+                    expect[m].append(aid)
+                    expect_t[m].setdefault(ty, []).append(aid)
+                    if ty not in seen_ty[m]:
+                        seen_ty[m].append(ty)
             elif ev[0] == "remove":
                 aid = ev[1]
                 m, ty, _ = created[aid]
@@ -841,6 +882,8 @@ def oracle_c04(sc, obs):
                     call["created"].add(aid)
             elif k == "remove":
                 registered.discard(ev[1])
+            elif k == "register":
+                registered.add(ev[1])
             elif k == "removeall":
                 m = ev[1]
                 # every agent of model m: the state after the op tells which are gone; use create info
@@ -992,6 +1035,10 @@ def world_tags(sc, obs):
                 yield "createn:" + ("single-object" if t[0] == "s" else "split" if len(parse_arg(t)) == n else "whole-sequence")
             if len(w) > 6:
                 yield "createn:two-arguments"
+        if w[0] == "register" and "register" in kinds:
+            yield "direct:register"
+        if w[0] == "deregister":
+            yield "direct:deregister" + ("-rejected" if "rejected" in kinds else "" if "remove" in kinds else "-of-dead-agent-noop")
         if w[0] == "remove" and "remove" in kinds and "dead" not in kinds:
             yield "branch:removed-but-held-or-already-removed"
         if w[0] == "remove" and "remove" not in kinds:
